@@ -9,7 +9,7 @@ for l in open('/verif/properties.jsonl'):
     p=json.loads(l)
     if p['id']==pid:
         prop="Property %s: %s\n\nStatement: %s\n\nQuantifier: %s\n\nAnchors (files): %s\nMechanisms: %s\n" % (p['id'],p['title'],p['statement'],p['quantifier']['text'],', '.join(p['anchors']['files']), '; '.join(m['name']+' @ '+m['where'] for m in p['anchors']['mechanism']))
-t=open('/tmp/agent_prompt_template.txt').read()
+t=open('/verif/dev_agent_prompt_template.txt').read()
 tag=pid.lower()+suf
 open('/tmp/agent_prompt_%s.txt'%tag,'w').write(t.replace('{WT}','/tmp/wt_%s'%tag).replace('{ID}',tag).replace('{PROP}',prop))
 print('/tmp/agent_prompt_%s.txt'%tag)
